@@ -1,7 +1,9 @@
 pub mod c05;
+pub mod cells;
 pub mod frame;
 pub mod proj;
 pub mod graph;
+pub mod lookup;
 pub mod sets;
 
 use crate::ev::{Report, Viol};
@@ -15,6 +17,11 @@ pub fn run(prop: &str, tier: &str) -> Option<Report> {
         "C08" => sets::run(8, tier),
         "C09" => sets::run(9, tier),
         "C10" => sets::run(10, tier),
+        "C01" => lookup::run_c01(tier),
+        "C02" => lookup::run_c02(tier),
+        "C04" => cells::run_c04(tier),
+        "C11" => cells::run_c11(tier),
+        "C12" => cells::run_c12(tier),
         "C15" => proj::run_c15(tier),
         "C16" => proj::run_c16(tier),
         "C18" => frame::run_c18(tier),
@@ -30,6 +37,8 @@ pub fn replay(prop: &str, case: &Value) -> Option<Vec<Viol>> {
         "C08" => sets::replay(8, case),
         "C09" => sets::replay(9, case),
         "C10" => sets::replay(10, case),
+        "C01" | "C02" => lookup::replay(prop, case),
+        "C04" | "C11" | "C12" => cells::replay(prop, case),
         "C15" => proj::replay_c15(case),
         "C16" => proj::replay_c16(case),
         "C18" => frame::replay_c18(case),
